@@ -164,21 +164,23 @@ def top_atoms(p):
 _CANON_MEMO = {}
 
 
-def canon(p, depth=0):
-    """Recursive normalisation: arguments of opaque atoms are normalised first; recip(N/D) becomes D * recip(N)."""
+def canon(p, depth=0, quats=()):
+    """Recursive normalisation: arguments of opaque atoms are normalised first (including the reduction modulo
+    |q| = 1 when unit quaternions are declared); recip(N/D) becomes D * recip(N)."""
     if depth > 6 or not p.t:
         return p
     if all(a.kind == "sym" for a in p.atoms()):
-        return p
+        return reduce_unit(p, quats) if (quats and depth > 0) else p
     from .poly import rebuild
+    qk = tuple(quats)
 
     def f(a):
         if a.kind == "sym":
             return None
-        r = _CANON_MEMO.get(a)
+        r = _CANON_MEMO.get((a, qk))
         if r is not None:
             return r
-        newargs = tuple(canon(x, depth + 1) if isinstance(x, Poly) else x for x in a.key)
+        newargs = tuple(canon(x, depth + 1, quats) if isinstance(x, Poly) else x for x in a.key)
         if a.kind == "recip":
             q = _atom_relations(newargs[0])
             num, den = split_rational(q)
@@ -188,14 +190,23 @@ def canon(p, depth=0):
             r = rebuild(a.kind, newargs)
         else:
             r = Poly.atom(a)
-        _CANON_MEMO[a] = r
+        _CANON_MEMO[(a, qk)] = r
         return r
-    out = p.subs(f)
-    return _atom_relations(out)
+    changed = False
+    for a in p.atoms():
+        if a.kind != "sym":
+            r = f(a)
+            if r.single_atom() is not a:
+                changed = True
+    out = p.subs(f) if changed else p
+    out = _atom_relations(out)
+    if quats and depth > 0:
+        out = reduce_unit(out, quats)
+    return out
 
 
 def normal(p, quats=()):
-    p = canon(p)
+    p = canon(p, 0, quats)
     if quats:
         p = reduce_unit(p, quats)
     return p
